@@ -636,7 +636,7 @@ impl<'i> VariableValidator<'i> {
             None => return false,
         };
 
-        found_spans.iter().any(|s| s < &key_span)
+        found_spans.iter().any(|s| s.contains_span(key_span))
     }
 
     fn met_variable_name_definition(&mut self, name: &'i str, span: Span) {
@@ -699,10 +699,12 @@ impl<'i> ValidatorErrorBuilder<'i> {
 
     /// Check that all variables were defined.
     fn check_undefined_variables(mut self) -> Self {
-        for (name, span) in self.validator.unresolved_variables.iter() {
-            if !self.validator.contains_variable(name, *span) {
-                let error = ParserError::undefined_variable(*span, *name);
-                add_to_errors(&mut self.errors, *span, Token::Call, error);
+        for (name, spans) in self.validator.unresolved_variables.iter_all() {
+            for span in spans {
+                if !self.validator.contains_variable(name, *span) {
+                    let error = ParserError::undefined_variable(*span, *name);
+                    add_to_errors(&mut self.errors, *span, Token::Call, error);
+                }
             }
         }
 
